@@ -227,6 +227,12 @@ def apply_variant(src_pkg_parent: str, dst: str, variant) -> Optional[str]:
     kind, name, anchor, old, new, props = variant
     pkg = os.path.join(src_pkg_parent, 'mosromgr')
     shutil.copytree(pkg, os.path.join(dst, 'mosromgr'), ignore=shutil.ignore_patterns('__pycache__'))
+    if anchor == 'PATCH':
+        import subprocess
+        r = subprocess.run(['git', 'apply', '--include=mosromgr/*', old], cwd=dst, capture_output=True, text=True)
+        if r.returncode != 0:
+            return 'patch does not apply to this tree: ' + (r.stderr.strip().splitlines() or ['?'])[0][:160]
+        return None
     try:
         prog = Program(dst)
         fi = locate(prog, anchor)
@@ -288,9 +294,35 @@ def _run_variant(args):
         shutil.rmtree(tmp, ignore_errors=True)
 
 
+VERIF_DIR = os.path.dirname(os.path.dirname(os.path.abspath(__file__)))
+
+
+def patch_variants(prop: str):
+    """The kept independent changes as further variants: seeded/<id>/patch.diff that the check of *prop* is recorded to
+    report (kind seed) and every behaviour-preserving refactoring in twins/ (kind twin).  The variant tuple carries the
+    patch path in place of the (anchor, old, new) triple."""
+    import glob
+    import json
+    out = []
+    for d in sorted(glob.glob(os.path.join(VERIF_DIR, 'seeded', '*'))):
+        mp_ = os.path.join(d, 'meta.json')
+        if not os.path.isfile(mp_):
+            continue
+        try:
+            meta = json.load(open(mp_))
+        except Exception:
+            continue
+        if prop in meta.get('checks_that_report_a_violation', []):
+            out.append((S, 'kept:' + meta['id'], 'PATCH', os.path.join(d, 'patch.diff'), '', (prop,)))
+    for d in sorted(glob.glob(os.path.join(VERIF_DIR, 'twins', '*'))):
+        if os.path.isfile(os.path.join(d, 'patch.diff')):
+            out.append((T, 'kept:' + os.path.basename(d), 'PATCH', os.path.join(d, 'patch.diff'), '', (prop,)))
+    return out
+
+
 def audit(res, prop: str, repo: str, seed: int):
     """Run the variants that concern *prop*; record the outcome in the evidence (never changes the verdict)."""
-    mine = [v for v in VARIANTS if prop in v[5]]
+    mine = [v for v in VARIANTS if prop in v[5]] + patch_variants(prop)
     rnd = random.Random(seed)
     rnd.shuffle(mine)
     jobs = [(repo, prop, v) for v in mine]
